@@ -166,6 +166,8 @@ fn bases() -> Vec<BaseDef> {
     let s16: Vec<u64> = (1..=16).collect();
     vec![
         BaseDef { name: "plain", src: "begin push.3 push.5 mul add swap end", kernel: None, stack: vec![1, 2, 3], advice: vec![] },
+        // explicit zeros as inputs: the elements that follow the (empty) kernel in the hashed statement are zeros
+        BaseDef { name: "zero_inputs", src: "begin push.4 push.6 mul add swap end", kernel: None, stack: vec![0, 0, 0, 0], advice: vec![] },
         BaseDef {
             name: "kernel_syscall",
             src: "begin syscall.kadd syscall.kmul push.9 syscall.kswap drop end",
@@ -552,6 +554,9 @@ fn stmt_devs(s: &Stmt) -> Vec<Value> {
         v.push(json!({"field": "kernel.remove", "i": i}));
     }
     v.push(json!({"field": "kernel.add"}));
+    // the statement is hashed into the Fiat-Shamir seed as program hash || kernel procedures || stack inputs ||
+    // outputs: the four input elements next to the kernel respelled as one more kernel procedure
+    v.push(json!({"field": "respell.leading_inputs_as_kernel_procedure"}));
     for i in 0..s.kernel.len() {
         v.push(json!({"field": "kernel.replace", "i": i}));
         for e in 0..4 {
@@ -609,6 +614,13 @@ fn apply_dev(s: &Stmt, d: &Value, foreign: &[u64; 4]) -> Option<Stmt> {
             t.kernel.remove(i);
         }
         "kernel.add" => t.kernel.push(*foreign),
+        "respell.leading_inputs_as_kernel_procedure" => {
+            if t.inputs.len() < 4 {
+                return None;
+            }
+            let d: Vec<u64> = t.inputs.drain(..4).collect();
+            t.kernel.push([d[0], d[1], d[2], d[3]]);
+        }
         "kernel.replace" => {
             let i = idx("i")?;
             *t.kernel.get_mut(i)? = *foreign;
